@@ -14,7 +14,7 @@ import (
 )
 
 func flipIfsMain() int {
-	p, err := Load(LoadOpts{})
+	p, err := Load(LoadOpts{Raw: true})
 	if err != nil {
 		fmt.Println(err)
 		return 2
